@@ -213,7 +213,8 @@ def compare(src, dst, caps, out, what, packed_upto=None):
         # it iterates them but does not answer revision queries with them, the copy (which re-links
         # them) does.  Revision queries into the packed region are pack's don't-care area (C07).
         for k in list(a):
-            if (k[0] in ('loadBefore', 'loadSerial') and k[2] <= packed_upto) or k[0] == 'history':
+            # (and the live packed source may still name a dropped trailing transaction as its last one)
+            if (k[0] in ('loadBefore', 'loadSerial') and k[2] <= packed_upto) or k[0] in ('history', 'lastTransaction'):
                 a.pop(k)
                 b.pop(k, None)
     out.evals += 1
